@@ -19,8 +19,9 @@ QuickPrograms == {<<"D0", "I", "E">>, <<"S0", "G", "E">>, <<"S1", "X", "E">>, <<
                   <<"D3", "I", "E">>, <<"D4", "I", "E">>, <<"S3", "I", "W">>, <<"S4", "E", "I">>,
                   <<"S0", "R", "G">>, <<"D0", "R", "E">>,
                   <<"D0", "K", "E">>, <<"D0", "K", "W">>,
+                  <<"L", "P", "P">>,                          \* L: lazy decode of a progressive file (mdat left in the source); P: File.CopySampleData of the first samples into a plain io.Writer
                   <<"S0", "B", "E">>, <<"S2", "B", "I">>}     \* B: AddCompatibleBrands on the decoded ftyp / styp (an append on a slice of the decoder's input on the SliceReader path)     \* K: encrypt with an 8-byte IV and a key that are slices of ONE shared buffer (IV slice has spare capacity)     \* R: re-multiplex every other sample of the first fragment into a new fragment    \* 3, 4: kitchen-sink files A / B (one instance of every box shape)
-ThoroughPrograms == {<<"D1", "X", "C">>, <<"D0", "K", "X">>, <<"S0", "G", "E">>, <<"D3", "I", "E">>, <<"D4", "I", "E">>}    \* 3 goroutines: 125 program tuples x 1680 interleavings
+ThoroughPrograms == {<<"D1", "X", "C">>, <<"D0", "K", "X">>, <<"L", "P", "I">>, <<"D3", "I", "E">>, <<"D4", "I", "E">>}    \* 3 goroutines: 125 program tuples x 1680 interleavings
 NoPrograms == {}
 VARIABLES pc, prog, sched, l, base
 vars == <<pc, prog, sched, l, base>>
